@@ -9,7 +9,7 @@ from hypothesis.stateful import (RuleBasedStateMachine, initialize, invariant,
                                  rule)
 
 from vlib import datasets as ds
-from vlib.runner import Sub, logged, replay_history
+from vlib.runner import Sub, checked, logged, replay_history
 
 PROPERTY = "C12"
 META = {
@@ -200,6 +200,9 @@ class FileStore(RuleBasedStateMachine):
             import numpy as np
             content = np.random.default_rng(seed).bytes(size)
         self.ops.add("big_payload")
+        if self.cfg["gzip"] and self.key_mime[KEYS[k]] not in NO_GZ and \
+                compressible and size > 2 ** 20:
+            self.ops.add("big_gzipped_payload>1MiB")
         self._store_chunk(k, c, content, overwrite)
 
     @rule(k=st.integers(0, len(KEYS) - 1), c=st.integers(0, len(COORDS) - 1),
@@ -350,6 +353,7 @@ class FileStore(RuleBasedStateMachine):
 
     # -- invariant -------------------------------------------------------------
     @invariant()
+    @checked
     def agrees_inv(self):
         if self.root:
             self.agrees()
